@@ -9,16 +9,20 @@ from types import SimpleNamespace
 
 PROPERTY = "C14"
 CONTRACTS = ["contracts.c14"]
-LEVEL = "exploration"
+LEVEL = "other"
 EXPLANATION = (
-    "Bounded: the real run_file_rename is run on generated directories (sub-directories, .zo / .zot / .zoq files) whose "
-    "contents are built from link texts that are exact, prefix, suffix, path-extension and anchored variants of the renamed "
-    "page, and every file is compared byte for byte with a position-wise retargeting function written from the statement. "
+    "Contract-based (all inputs): simplify_fname - which fixes the link name that is retargeted - returns the page's path "
+    "relative to the notes directory with exactly a trailing '.zo' removed and every other extension kept (strip_zdir through "
+    "an assumed contract). "
+    "Bounded: the real run_file_rename is run on generated directories (sub-directories, .zo / .zot / .zoq files, template and "
+    "query pages renamed with their own extension) whose contents are built from link texts that are exact, prefix, suffix, "
+    "path-extension, stem and anchored variants of the renamed page, and every file is compared byte for byte with a "
+    "position-wise retargeting function written from the statement. "
     "The content clause needs replace_all reasoning that both solvers leave undecided (DESIGN.md 2.3), so no contract is "
-    "claimed for it; the frame clause (files without a link are not written) is observed through modification times."
+    "claimed for the replacement loop itself."
 )
 ASSUMPTIONS = ["contents use well-formed link syntax ([[...]])"]
-TRUSTED = ["the file system"]
+TRUSTED = ["the file system", "z3 5.1 / cvc5 1.0.3", "pyvc symbolic interpreter (engine/)"]
 
 
 def retarget(text: str, a: str, b: str) -> str:
